@@ -135,6 +135,37 @@ def r_no_unbounded(model, rep):
     rep.floor("R-NO-UNBOUNDED", 60)
 
 
+def _constant_table(model, module, name):
+    """a module-level table that is a non-empty literal of constants and that no code of the package ever writes to (a lookup
+    table, not a cache)"""
+    try:
+        v = model._module_const(module, name)
+    except Exception:
+        return False
+    if not isinstance(v, (dict, list, tuple)) or not v:
+        return False
+    muts = ("setdefault", "update", "append", "add", "pop", "clear", "extend", "insert", "remove", "popitem", "discard", "sort", "reverse")
+    for m in model.modules.values():
+        for n in ast.walk(m.tree if hasattr(m, "tree") else ast.parse(open(m.path).read())):
+            if isinstance(n, (ast.Subscript, ast.Attribute)) and isinstance(n.ctx, (ast.Store, ast.Del)):
+                b = n.value
+                while isinstance(b, (ast.Subscript, ast.Attribute)):
+                    b = b.value
+                if isinstance(b, ast.Name) and b.id == name and isinstance(n, ast.Subscript):
+                    return False
+                if isinstance(n.value, ast.Attribute) and n.value.attr == name:
+                    return False
+            if isinstance(n, ast.Call) and isinstance(n.func, ast.Attribute) and n.func.attr in muts:
+                b = n.func.value
+                while isinstance(b, (ast.Subscript,)):
+                    b = b.value
+                if (isinstance(b, ast.Name) and b.id == name) or (isinstance(b, ast.Attribute) and b.attr == name):
+                    return False
+            if isinstance(n, ast.Global) and name in n.names:
+                return False
+    return True
+
+
 def r_stateless(model, rep, funcs=None):
     """parsers/formatters are functions of their arguments: no global statement, no mutation of module-level objects, no
     caching decorator, and no result object that is shared between calls"""
@@ -175,7 +206,7 @@ def r_stateless(model, rep, funcs=None):
                 for x in T.walk(ev.value):
                     if x[0] == "sub" and x[1][0] == "global" and f.module.assigns.get(x[1][1].split(".")[-1]) and \
                             isinstance(f.module.assigns[x[1][1].split(".")[-1]][-1].value, (ast.Dict, ast.List, ast.Call)) and \
-                            x[1][1] not in ("COMPOSE_TYPE_SUFFIXES",):
+                            x[1][1] not in ("COMPOSE_TYPE_SUFFIXES",) and not _constant_table(model, f.module, x[1][1].split(".")[-1]):
                         bad.append("line %s: returns an element of the module-level container %s" % (ev.lineno, x[1][1]))
         rep.ob("R-STATELESS", f.qname, not bad, site=cx.site(f.node),
                msg="" if not bad else "the function is not a pure function of its arguments: %s" % "; ".join(sorted(set(bad))[:3]))
@@ -735,6 +766,16 @@ def compose_suffix_ladder(model):
             if isinstance(d, dict) and d:
                 unknown = [e2 for e2 in cx.events if e2.kind == "raise" and (
                     facts.has_guard(e2, ("cmp", ("in",), (ev.value[2], ev.value[1])), False) or any(g[0] == ("exc", "KeyError") for g in e2.guards))]
+                if not unknown:
+                    # try: return TABLE[type]  except KeyError: pass  ... raise
+                    for n in ast.walk(f.node):
+                        if isinstance(n, ast.Try) and any(isinstance(r_, ast.Return) and r_.lineno == ev.lineno for b_ in n.body for r_ in ast.walk(b_)):
+                            names = [dotted(h_) for h in n.handlers
+                                     for h_ in ((h.type.elts if isinstance(h.type, ast.Tuple) else [h.type]) if h.type is not None else [])]
+                            swallowed = all(not any(isinstance(z, (ast.Return, ast.Raise)) for b_ in h.body for z in ast.walk(b_)) for h in n.handlers)
+                            if ("KeyError" in names or "LookupError" in names) and swallowed:
+                                unknown = [e2 for e2 in cx.events if e2.kind == "raise" and e2.seq > ev.seq and not [g for g in e2.guards if g[0][0] != "exc"]
+                                           and not e2.loops]
                 return dict(d), bool(unknown), cx, f
     for ev in cx.events:
         if ev.kind == "return":
